@@ -2843,6 +2843,9 @@ class Inliner:
         if h.kind in ('method', 'classmethod'):
             if recv is None:
                 return None
+            if h.kind == 'classmethod' and isinstance(recv, ast.Name) and recv.id != 'cls':
+                # a classmethod called on an instance receives the instance's class
+                recv = ast.Attribute(value=recv, attr='__class__', ctx=ast.Load())
             bind[pos_params[0]] = recv
             pos_params = pos_params[1:]
         if len(call.args) > len(pos_params) or any(isinstance(a, ast.Starred) for a in call.args):
@@ -2857,7 +2860,11 @@ class Inliner:
             if p not in bind:
                 if p not in h.defaults:
                     return None
-                bind[p] = h.defaults[p]
+                dv = h.defaults[p]
+                if not isinstance(dv, (ast.Constant, ast.Name, ast.Attribute, ast.Tuple, ast.UnaryOp, ast.BinOp)) or \
+                        any(isinstance(x, (ast.Call, ast.List, ast.Dict, ast.Set, ast.ListComp, ast.DictComp, ast.SetComp)) for x in ast.walk(dv)):
+                    return None          # a default built once at definition time (`x=[]`, `x=set()`): substituting the expression would build it per call
+                bind[p] = dv
         rename, subst, pre = {}, {}, []
         for name in h.stored:
             rename[name] = name + tag
